@@ -12,7 +12,8 @@
     theorems have the shape of the section hypotheses [codec_roundtrip] / [framing_roundtrip]. *)
 From Coq Require Import List Bool Arith Lia Permutation NArith ZArith.
 Import ListNotations.
-From SioV Require Import Base.GoSem Sio.EndToEnd.
+From SioV Require Import Base.GoSem.
+From SioV Require Import Sio.EndToEnd.
 
 Definition iname := list N.
 Definition iname_eqb : iname -> iname -> bool := list_eqb N.eqb.
@@ -163,6 +164,9 @@ Definition ideliveries (max : N) (hs : list (handler iname)) :=
   deliveries iname iarg iframe idstate Idle idec_step (list iframe) (fun b => b) (fun u => u)
              (iaccepts max) (fun us => us) (iget_all hs).
 
+Lemma all_frames_ok : forall e : event iname iarg, Forall (fun _ : iframe => True) (ienc e).
+Proof. intros e. apply Forall_forall. trivial. Qed.
+
 Lemma inst_exactly_once :
   forall (max : N) (hs : list (handler iname)), NoDup (map (hid iname) hs) ->
   forall (c : cfg) (ems : list (list (event iname iarg * ioffset))) tr batches,
@@ -177,8 +181,9 @@ Lemma inst_exactly_once :
 Proof.
   intros max hs Hnd c ems tr batches Hs Hil Hw Hl Hsig h Hh.
   pose proof (exactly_once_intact iname iname_eqb iname_eqb_eq iarg ioffset ioff_arg iframe ienc
-                idstate Idle idec_step icodec_roundtrip (list iframe) (fun b => b) (fun u => u)
-                (fun b => eq_refl) (iaccepts max) (fun us => us) (fun us => eq_refl)
+                idstate Idle idec_step icodec_roundtrip (fun _ => True) all_frames_ok
+                (list iframe) (fun b => b) (fun u => u)
+                (fun b _ => eq_refl) (iaccepts max) (fun us => us) (fun us => eq_refl)
                 hs (iget_all hs) (fun n => eq_refl) Hnd c ems tr batches Hil Hw Hl Hsig
                 (handlers_ok_fixed iname hs c Hs)) as [_ [H _]].
   exact (proj2 (H h Hh)).
